@@ -69,15 +69,16 @@ class DockerClient:
             for i, (kind, text) in enumerate(script.get("chunks", [])):
                 control.events.append(f"chunk{i}")
                 yield (kind, text.encode("latin-1"))
-            if ending != "success":
-                control.events.append("fail-in-stream")
-                fail()
+            # the container leaves its result (a failing container may leave one too: written, then a later step fails)
             if script.get("write_result", True) and results_src is not None:
                 try:
                     (Path(results_src) / script.get("result_name", "ANALYSIS.root")).write_text(script.get("payload", "payload"))
                     control.events.append("result-written")
                 except Exception as e:
                     control.events.append(f"result-write-failed:{type(e).__name__}")
+            if ending != "success":
+                control.events.append("fail-in-stream")
+                fail()
             control.events.append("container-exit-0")
 
         if kwargs.get("stream"):
